@@ -32,7 +32,7 @@ C. a fault that fires inside a call is that call's error — `fired_fault_is_err
    and EVERY failure of the probe seek, of whatever kind, is reported (`probe_seek_error_reported`,
    `probe_injected_fault_reported`).
 D. headline: `all_ok_is_faultfree`, `fault_outcome_dichotomy` (writer), `open_ok_is_faultfree`,
-   `read_scenario_dichotomy`, `stream_ok_is_faultfree` (readers), `append_ok_is_faultfree`
+   `read_scenario_dichotomy`, `stream_ok_is_faultfree_partial` (readers; the full streaming clause is false: K-J), `append_ok_is_faultfree`
 E. concrete runs evaluated by the kernel, including the D18 regressions (`d18_regression`,
    `d18_regression_every_kind`) and the witnesses against the pre-repair definitions
    (`d18_pre_fix_witness`, `d18_invalid_input_pre_fix_witness`).
@@ -214,15 +214,30 @@ theorem read_fired_fault_is_error (ext : Ext) (a : Archive) (i : Nat) (name : By
   ⟨(byIndexRead_tight ext a i pw).reports, (byNameRead_tight ext a name pw).reports,
    (byIndexRaw_tight a i).reports⟩
 
-/-- **The streaming reader** (`ZipStreamReader::visit`, every entry read to its end; also under any
-pattern of partial reads followed by drop — but see the note below): a fault that fires is returned as that very error. -/
-theorem stream_fired_fault_is_error (ext : Ext) (k : Nat) (d : Dev)
+/-- **The streaming reader, consumers that read every entry to its end** (`ZipStreamReader::visit` with a
+visitor that reads each entry to end-of-file, `extract`): a fault that fires is returned as that very error.
+
+`_partial`: the full clause — ANY consumer of `read_zipfile_from_stream`, in particular one that reads part of an
+entry and drops the handle — is FALSE (`stream_drain_fault_swallowed`, known finding K-J): `Drop for ZipFile`
+drains the unread rest and cannot report a read error.  What holds for every consumption pattern is fault
+transparency (`stream_entries_unreached_fault`). -/
+theorem stream_fired_fault_is_error_partial (ext : Ext) (k : Nat) (d : Dev)
     (hf : Fired k d (streamVisit ext (some k) d).2) :
     (streamVisit ext (some k) d).1 = .err (.io d.fkind) :=
   (streamVisit_tight ext).reports hf
 
--- c11: restate (`stream_entries_fired_fault_is_error`: under partial consumption the drop-time drain swallows
--- a read error - `Model.drain` -, so the statement is false for a fault that fires inside the drain).
+/-- the hypothesis of `stream_fired_fault_is_error_partial` is satisfiable: the first read of the stream failing -/
+example : Fired 0 (Dev.ofBytes C05.oneEntry) (streamVisit storedExt (some 0) (Dev.ofBytes C05.oneEntry)).2 := by
+  decide +kernel
+
+/-- **Partial consumption + drop, any pattern** (`consume` decoded bytes asked for, `pulled` compressed bytes
+pulled through the `Take`, then `ZipFile::drop` drains in 64 KiB reads): a fault index that is not reached
+changes nothing — outcomes, entries, device.  (A fault that IS reached inside a drain is swallowed:
+`stream_drain_fault_swallowed`.) -/
+theorem stream_entries_unreached_fault (ext : Ext) (pattern : List Consume) (fuel i k : Nat) (d : Dev)
+    (hn : ¬ Fired k d (streamEntriesC ext pattern fuel i (some k) d).2) :
+    streamEntriesC ext pattern fuel i (some k) d = streamEntriesC ext pattern fuel i none d :=
+  (streamEntriesC_uniform ext pattern fuel i).same_of_not_fired hn
 
 /-- **`ZipArchive::new`**: a fault that fires — at ANY I/O call — is reported as an error (the injected
 one; `InvalidArchive` when it hit the seek to the central directory, which the crate maps to that). -/
@@ -335,9 +350,12 @@ theorem open_ok_is_faultfree {k : Nat} {d d' : Dev} {a : Archive}
     (h : openArchive (some k) d = (.ok a, d')) : openArchive none d = (.ok a, d') :=
   openArchive_ok_faultfree h
 
-/-- **Streaming reader**: `Ok` under a fault is the failure-free result (every entry, every metadata
-record, the device). -/
-theorem stream_ok_is_faultfree (ext : Ext) {k : Nat} {d d' : Dev}
+/-- **Streaming reader, consumers that read every entry to its end**: `Ok` under a fault is the failure-free
+result (every entry, every metadata record, the device).
+
+`_partial`: for a consumer that drops partly read entries the clause is false — every call can return `Ok`
+while the entries handed out are different ones (`stream_drain_fault_swallowed`, known finding K-J). -/
+theorem stream_ok_is_faultfree_partial (ext : Ext) {k : Nat} {d d' : Dev}
     {r : List (FileData × Out Bytes) × List FileData}
     (h : streamVisit ext (some k) d = (.ok r, d')) : streamVisit ext none d = (.ok r, d') :=
   (streamVisit_tight ext).ok_faultfree h
@@ -489,6 +507,54 @@ example : (List.range 35).all (fun k =>
 /-- The streaming reader on the same bytes: every fault index inside the run is the injected error. -/
 example : (List.range (streamVisit storedExt none (Dev.ofBytes C05.oneEntry)).2.calls).all (fun k =>
     isInjected (streamVisit storedExt (some k) (Dev.ofBytes C05.oneEntry)).1) = true := by decide +kernel
+
+/-! ### K-J: a read error in the drain of a dropped streamed entry is swallowed (known finding) -/
+
+/-- A 314-byte stream: stored entry `a` whose content is `"head"` followed by a complete stored archive with the one
+entry `evil`; stored entry `b`; the central directory (built with CPython `zipfile`). -/
+def nestedStream : Bytes :=
+  [
+     0x50,0x4b,0x03,0x04,0x14,0x00,0x00,0x00,0x00,0x00,0x00,0x00,0x21,0x00,0x04,0xee,0x70,0x7f,0x77,0x00,0x00,0x00,0x77,0x00,
+     0x00,0x00,0x01,0x00,0x00,0x00,0x61,0x68,0x65,0x61,0x64,0x50,0x4b,0x03,0x04,0x14,0x00,0x00,0x00,0x00,0x00,0x00,0x00,0x21,
+     0x00,0x3e,0x8d,0xac,0xb6,0x09,0x00,0x00,0x00,0x09,0x00,0x00,0x00,0x04,0x00,0x00,0x00,0x65,0x76,0x69,0x6c,0x65,0x76,0x69,
+     0x6c,0x20,0x64,0x61,0x74,0x61,0x50,0x4b,0x01,0x02,0x14,0x03,0x14,0x00,0x00,0x00,0x00,0x00,0x00,0x00,0x21,0x00,0x3e,0x8d,
+     0xac,0xb6,0x09,0x00,0x00,0x00,0x09,0x00,0x00,0x00,0x04,0x00,0x00,0x00,0x00,0x00,0x00,0x00,0x00,0x00,0x00,0x00,0xa4,0x01,
+     0x00,0x00,0x00,0x00,0x65,0x76,0x69,0x6c,0x50,0x4b,0x05,0x06,0x00,0x00,0x00,0x00,0x01,0x00,0x01,0x00,0x32,0x00,0x00,0x00,
+     0x2b,0x00,0x00,0x00,0x00,0x00,0x50,0x4b,0x03,0x04,0x14,0x00,0x00,0x00,0x00,0x00,0x00,0x00,0x21,0x00,0xc5,0xe9,0x2d,0x9f,
+     0x11,0x00,0x00,0x00,0x11,0x00,0x00,0x00,0x01,0x00,0x00,0x00,0x62,0x73,0x65,0x76,0x65,0x6e,0x74,0x65,0x65,0x6e,0x20,0x62,
+     0x79,0x74,0x65,0x73,0x21,0x21,0x50,0x4b,0x01,0x02,0x14,0x03,0x14,0x00,0x00,0x00,0x00,0x00,0x00,0x00,0x21,0x00,0x04,0xee,
+     0x70,0x7f,0x77,0x00,0x00,0x00,0x77,0x00,0x00,0x00,0x01,0x00,0x00,0x00,0x00,0x00,0x00,0x00,0x00,0x00,0x00,0x00,0xa4,0x01,
+     0x00,0x00,0x00,0x00,0x61,0x50,0x4b,0x01,0x02,0x14,0x03,0x14,0x00,0x00,0x00,0x00,0x00,0x00,0x00,0x21,0x00,0xc5,0xe9,0x2d,
+     0x9f,0x11,0x00,0x00,0x00,0x11,0x00,0x00,0x00,0x01,0x00,0x00,0x00,0x00,0x00,0x00,0x00,0x00,0x00,0x00,0x00,0xa4,0x01,0x96,
+     0x00,0x00,0x00,0x62,0x50,0x4b,0x05,0x06,0x00,0x00,0x00,0x00,0x02,0x00,0x02,0x00,0x5e,0x00,0x00,0x00,0xc6,0x00,0x00,0x00,
+     0x00,0x00]
+
+/-- names of the entries handed out and whether every call — `read_zipfile_from_stream` and the consumer's reads —
+returned `Ok` -/
+def streamSaw (r : Out (List (FileData × Out Bytes)) × Dev) : Option (List Bytes × Bool) :=
+  match r.1 with
+  | .ok es => some (es.map (·.1.fileName), es.all (fun e => e.2.isOk))
+  | _ => none
+
+/-- **`stream_drain_fault_swallowed`** — counterexample to the full streaming clause (the former
+`stream_entries_fired_fault_is_error`, and "`Ok` everywhere implies the failure-free entries").  The consumer
+reads 4 bytes of each entry and drops the handle.  Failure-free it sees `a`, `b`.  With I/O call 13 failing — the
+first read of the drain `ZipFile::drop` runs for `a` (calls 0–11: the header, 12: the consumer's read) — the
+drain ends silently, the stream stays inside `a`'s data, and the next `read_zipfile_from_stream` parses the
+nested archive: EVERY call returns `Ok` and the entries are `a`, `evil`.  Replayed on the crate by the fault
+stream (`fault.stream … consume=4 k=14` in corpus/fault.ops is the same with 64 KiB of filler in front, i.e. the
+SECOND drain read; oracle message `K-J stream-drain-fault-swallowed:`). -/
+theorem stream_drain_fault_swallowed :
+    streamSaw (streamEntriesC storedExt [{ k := 4, pulled := 4 }] 8 0 none (Dev.ofBytes nestedStream))
+      = some ([[0x61], [0x62]], true) ∧
+    streamSaw (streamEntriesC storedExt [{ k := 4, pulled := 4 }] 8 0 (some 13) (Dev.ofBytes nestedStream))
+      = some ([[0x61], [0x65, 0x76, 0x69, 0x6c]], true) ∧
+    Fired 13 (Dev.ofBytes nestedStream)
+      (streamEntriesC storedExt [{ k := 4, pulled := 4 }] 8 0 (some 13) (Dev.ofBytes nestedStream)).2 := by
+  decide +kernel
+
+/-- … whereas the same fault while every entry is read to its end is reported. -/
+example : C05.isErr (streamVisit storedExt (some 13) (Dev.ofBytes nestedStream)).1 = true := by decide +kernel
 
 /-! ### D18: the swallowed probe-seek failure (found by this development, repaired in the crate) -/
 
